@@ -397,4 +397,6 @@ SELFTEST = [
     {"name": "benign-loop-for-generator", "kind": "benign", "file": _D, "old": "        log_p += sum(cached_log_factorial(len(v) - 1) for k, v in tree_node_data.items() if k != outlier_node_name)\n", "new": "        for name, members in tree_node_data.items():\n            if name == outlier_node_name:\n                continue\n            log_p += cached_log_factorial(len(members) - 1)\n"},
     {"name": "benign-outlier-prior-conditional-expr", "kind": "benign", "file": _D, "old": "                    if node == outlier_node_name:\n                        log_p += data_point.outlier_prob\n\n                    else:\n                        log_p += data_point.outlier_prob_not", "new": "                    log_p += data_point.outlier_prob if node == outlier_node_name else data_point.outlier_prob_not"},
     {"name": "benign-eq-direct-return", "kind": "benign", "file": _T, "old": "        self_key = (self.get_clades(), frozenset(self.outliers))\n\n        other_key = (other.get_clades(), frozenset(other.outliers))\n\n        return self_key == other_key", "new": "        return (other.get_clades(), frozenset(other.outliers)) == (self.get_clades(), frozenset(self.outliers))"},
+    {"name": "TS-number-of-clones-counts-root", "kind": "break", "rule": "TS", "file": "phyclone/tree/tree.py", "old": "        return self._graph.num_nodes() - 1", "new": "        return self._graph.num_nodes()"},
+    {"name": "TS-roots-are-all-nodes", "kind": "break", "rule": "TS", "file": "phyclone/tree/tree.py", "old": "        node_idx = self._node_indices[self._ROOT_NODE_NAME]\n        return [child.node_id for child in self._graph.successors(node_idx)]\n\n    @classmethod", "new": "        node_idx = self._node_indices[self._ROOT_NODE_NAME]\n        return [child.node_id for child in self._graph.nodes() if child.node_id != self._ROOT_NODE_NAME]\n\n    @classmethod"},
 ]
